@@ -219,7 +219,7 @@ def case_template(case):
     return [["macro", "f", case["params"], body], ["call", "f", case["pos"], case["kw"], case["order"]]]
 
 
-GLOBALS = {"g": "G"}
+GLOBALS = {"g": "G", "b": "Gb"}  # b: a caller variable named like a parameter must not leak into an unbound parameter
 
 
 def ev(e):
@@ -476,7 +476,7 @@ class WithStream(Stream):
                     ns.append(["text", "."])
             return ns
 
-        for _ in range(ctx.scale(2500, 30000)):
+        for _ in range(ctx.scale(2500, 60000)):
             counter[0] = 0
             g = {"g": "G"}
             if rng.range(0, 2):
